@@ -75,6 +75,9 @@ def run(ctx):
             spec = zoo.float_spec(rng, n=0 if empty else int(rng.integers(8, 40)))
             spec['pne'] = [str(rng.choice(['0,0', '4,1', '3,0'])) for _ in spec['widths']]
         s = zoo.write_and_load(F, spec, path)
+        dtag = 'fresh'
+        if rng.random() < 0.3:
+            s, dtag = zoo.derive(rng, s, keep_channels=True)     # a sample in the middle of an analysis (sliced, copied, pickled ...)
         D = s.shape[1]
         plain = np.array(np.asarray(s))
         ncalls = 12
